@@ -92,6 +92,10 @@ class _DateTimeZoneWriter(_IDateTimeZoneWriter):
 
         :param count: The value to write.
         """
+        # The zigzag encoding below relies on `count >> 31` being the sign, i.e. on a 32-bit value (an `int` in Noda Time).
+        _Preconditions._check_argument_range(
+            "count", count, _CsharpConstants.INT_MIN_VALUE, _CsharpConstants.INT_MAX_VALUE
+        )
         # TODO: unchecked (uint)
         self.__write_varint((count >> 31) ^ (count << 1))  # zigzag encoding
 
